@@ -816,21 +816,24 @@ class DeterministicOde(BaseOdeModel):
         err_str = "More than one state in the defined system"
 
         if isinstance(x0, np.ndarray):
-            self._x0 = x0
+            x0_new = x0
         elif isinstance(x0, (list, tuple)):
-            self._x0 = np.array(x0)
+            x0_new = np.array(x0)
         elif isinstance(x0, (int, float)):
             if self.num_state == 1:
-                self._x0 = np.array([x0])
+                x0_new = np.array([x0])
             else:
                 raise InitializeError(err_str)
         else:
             raise InitializeError("err_str")
 
-        if len(self._x0) != self.num_state:
+        # check before assigning: a rejected input must not be kept
+        if len(x0_new) != self.num_state:
             raise Exception("Number of state is " +
                             str(self.num_state)+ " but " +
-                            str(len(self._x0))+ " detected")
+                            str(len(x0_new))+ " detected")
+
+        self._x0 = x0_new
 
     @property
     def initial_time(self):
